@@ -90,7 +90,7 @@ class PathCtx:
         # light solver: path condition + linear axioms only (no definitional equations of
         # sqrt / inverse / let atoms ...).  unsat there is unsat in the full context too.
         self.light = z3.Solver()
-        self.light.set('timeout', min(explorer.query_timeout_ms, 5000))
+        self.light.set('timeout', min(explorer.query_timeout_ms, explorer.light_timeout_ms))
         self.light.set('rlimit', explorer.rlimit)
         if explorer.seed:
             self.solver.set('random_seed', explorer.seed % (2 ** 30))
@@ -176,7 +176,7 @@ class PathCtx:
         return r
 
     # ---- solver plumbing
-    def _check(self, *extra, light=False):
+    def _check(self, *extra, light=False, portfolio=False):
         t0 = time.time()
         solver = self.light if (light and self.n_heavy) else self.solver
         if light and not self.n_heavy:
@@ -194,12 +194,12 @@ class PathCtx:
         model = None
         if r == z3.sat:
             model = solver.model()
-        if r == z3.unknown and not light and self.ex.oneshot:
+        if r == z3.unknown and not light and portfolio and self.ex.oneshot:
             # portfolio: z3's incremental mode and its one-shot pipeline (nlsat) have
             # different strengths; a fresh solver without a wall-clock timeout parameter
             # selects the latter (bounded by rlimit instead)
             s2 = z3.Solver()
-            s2.set('rlimit', self.ex.rlimit * 10)
+            s2.set('rlimit', self.ex.rlimit)
             s2.add(solver.assertions())
             r = s2.check()
             if r == z3.sat:
@@ -264,13 +264,54 @@ class PathCtx:
 
     def _feasible(self, cond):
         """sat / unsat / unknown for pc AND cond: the light context first (its unsat is
-        definitive), the full one otherwise."""
+        definitive), then the full one under a short timeout, then a model search by
+        partial instantiation (a model found that way is a genuine model)."""
         if self.n_heavy:
             r, _ = self._check(cond, light=True)
             if r == 'unsat':
                 return r
+            self.solver.set('timeout', min(self.ex.query_timeout_ms, 4000))
+            try:
+                r, _ = self._check(cond)
+            finally:
+                self.solver.set('timeout', self.ex.query_timeout_ms)
+            if r != 'unknown':
+                return r
+            m = self.guided(cond, tries=4)
+            return 'sat' if m is not None else 'unknown'
         r, _ = self._check(cond)
         return r
+
+    def guided(self, *extra, tries=6):
+        """Model search by partial instantiation: fix a pseudo-random subset of the inputs
+        to values of their domains; any model found satisfies the full context."""
+        import random
+        from .poly import _rv, _fr
+        rng = random.Random(1234 + self.ex.seed + len(self.pc))
+        names = [n for n, (k, v, lo, hi) in self.inputs.items() if k in ('real', 'int')]
+        old_to = self.ex.query_timeout_ms
+        try:
+            for t in range(tries):
+                frac = 0.5 if t < tries // 2 else 0.85
+                eqs = []
+                for n in names:
+                    if rng.random() < frac:
+                        k, v, lo, hi = self.inputs[n]
+                        lo_ = -1.0 if lo is None else float(lo)
+                        hi_ = lo_ + 2.0 if hi is None else float(hi)
+                        val = rng.choice([lo_, hi_, (lo_ + hi_) / 2, rng.uniform(lo_, hi_),
+                                          round(rng.uniform(lo_, hi_), 1)])
+                        if k == 'int':
+                            eqs.append(v == int(round(val)))
+                        else:
+                            eqs.append(v == _rv(_fr(val)))
+                self.solver.set('timeout', 3000)
+                r, m = self._check(*(list(extra) + eqs))
+                if r == 'sat':
+                    return m
+        finally:
+            self.solver.set('timeout', old_to)
+        return None
 
     def choose(self, k, label=None):
         """Fork over range(k) without a solver variable (a structural choice)."""
@@ -368,8 +409,10 @@ class Explorer:
     """Runs fn(ctx) over all feasible paths."""
 
     def __init__(self, max_paths=400, wall_s=120.0, query_timeout_ms=20000, seed=0,
-                 want_sample=True, rlimit=4000000, oneshot=True):
+                 want_sample=True, rlimit=4000000, oneshot=False,
+                 light_timeout_ms=5000):
         self.rlimit = rlimit
+        self.light_timeout_ms = light_timeout_ms
         self.oneshot = oneshot
         self.max_paths = max_paths
         self.wall_s = wall_s
